@@ -2,6 +2,7 @@ package sim
 
 import (
 	"fmt"
+	"io"
 	"math/big"
 
 	"github.com/bnb-chain/tss-lib/v2/common"
@@ -70,6 +71,8 @@ type SignOpts struct {
 	FullBytesLen int // 0 = absent
 	KDD          *big.Int
 	Shuffle      bool
+	// Rand, when set, gives party i its randomness source (Parameters.SetRand): used to make the nonce reproducible
+	Rand func(i int) io.Reader
 }
 
 // pidsForKeys builds the signer party ids from the share ids stored in the key data, optionally shuffled before sorting.
@@ -100,6 +103,9 @@ func ECDSASigning(seed int64, keys []ecdsakeygen.LocalPartySaveData, t int, msg 
 		n := newNode(fmt.Sprintf("P%d", i), "all", pid)
 		params := tss.NewParameters(tss.S256(), ctx, pid, len(pids), t)
 		params.SetConcurrency(Concurrency)
+		if o.Rand != nil {
+			params.SetRand(o.Rand(i))
+		}
 		end := make(chan *common.SignatureData, 16)
 		var fb []int
 		if o.FullBytesLen > 0 {
@@ -221,6 +227,9 @@ func EDDSASigning(seed int64, keys []eddsakeygen.LocalPartySaveData, t int, msg 
 		}
 		n := newNode(fmt.Sprintf("P%d", i), "all", pid)
 		params := tss.NewParameters(tss.Edwards(), ctx, pid, len(pids), t)
+		if o.Rand != nil {
+			params.SetRand(o.Rand(i))
+		}
 		end := make(chan *common.SignatureData, 16)
 		var fb []int
 		if o.FullBytesLen > 0 {
